@@ -73,6 +73,10 @@ func Generate(r *prng.Rand, name string) *Schema {
 	for i := 0; i < nd; i++ {
 		g.def(i == nd-1)
 	}
+	ro := r.Fork("order")
+	if ro.Chance(1, 5) {
+		g.wrappers(ro, 0)
+	}
 	// a [flags] attribute sticks to every later definition in this parser, so flag enums
 	// go last (the schema stays one the compiler accepts)
 	var front, back []*Def
@@ -83,10 +87,104 @@ func Generate(r *prng.Rand, name string) *Schema {
 			front = append(front, d)
 		}
 	}
+	if ro.Chance(1, 3) {
+		// FORWARD references: the generator above only ever refers to earlier definitions;
+		// the language does not care, so one program in three is declared in another order
+		// (reversed = strictly top-down, or shuffled)
+		if ro.Bool() {
+			for i, j := 0, len(front)-1; i < j; i, j = i+1, j-1 {
+				front[i], front[j] = front[j], front[i]
+			}
+		} else {
+			pm := ro.Perm(len(front))
+			sh := make([]*Def, len(front))
+			for i, k := range pm {
+				sh[i] = front[k]
+			}
+			front = sh
+		}
+	}
 	g.s.Defs = append(front, back...)
 	g.consts(len(front))
 	g.s.index()
 	return g.s
+}
+
+var wrapperLeaves = []string{"int32", "byte", "float64", "guid", "uint16", "date", "bool"}
+
+// wrappers adds a chain of structs that hold NOTHING BUT other structs (1..4 levels above
+// a leaf struct of fixed scalars) and a record that uses every level as array element and
+// map value with data following. nImported of the lowest levels go to the library file.
+func (g *gen) wrappers(r *prng.Rand, nImported int) {
+	leaf := &Def{Kind: KStruct, Name: g.nm.fresh(true)}
+	for i, n := 0, r.Range(1, 2); i < n; i++ {
+		leaf.Fields = append(leaf.Fields, Field{Name: g.nm.fresh(false), Type: Type{Prim: wrapperLeaves[r.Intn(len(wrapperLeaves))]}})
+	}
+	chain := []*Def{leaf}
+	for lvl, depth := 0, r.Range(1, 4); lvl < depth; lvl++ {
+		w := &Def{Kind: KStruct, Name: g.nm.fresh(true)}
+		for i, n := 0, r.Range(1, 2); i < n; i++ {
+			inner := chain[len(chain)-1]
+			if i > 0 && r.Bool() {
+				inner = chain[r.Intn(len(chain))]
+			}
+			w.Fields = append(w.Fields, Field{Name: g.nm.fresh(false), Type: Type{Named: inner.Name}})
+		}
+		chain = append(chain, w)
+	}
+	for i := 0; i < nImported && i < len(chain)-1; i++ {
+		chain[i].Imported = true
+	}
+	var holder *Def
+	arr := func(d *Def) Type { t := Type{Named: d.Name}; return Type{Array: &t, Postfix: r.Bool()} }
+	top := chain[len(chain)-1]
+	if r.Bool() {
+		holder = &Def{Kind: KStruct, Name: g.nm.fresh(true)}
+		holder.Fields = append(holder.Fields, Field{Name: g.nm.fresh(false), Type: arr(top)})
+		if len(chain) > 2 && r.Bool() {
+			holder.Fields = append(holder.Fields, Field{Name: g.nm.fresh(false), Type: arr(chain[r.Range(1, len(chain)-2)])})
+		}
+		if r.Bool() {
+			v := Type{Named: top.Name}
+			holder.Fields = append(holder.Fields, Field{Name: g.nm.fresh(false), Type: Type{MapK: "string", MapV: &v}})
+		}
+		holder.Fields = append(holder.Fields, Field{Name: g.nm.fresh(false), Type: Type{Prim: "uint32"}})
+	} else {
+		holder = &Def{Kind: KMessage, Name: g.nm.fresh(true)}
+		holder.Fields = append(holder.Fields, Field{Name: g.nm.fresh(false), Index: 1, Type: arr(top)})
+		if len(chain) > 2 {
+			holder.Fields = append(holder.Fields, Field{Name: g.nm.fresh(false), Index: 2, Type: arr(chain[r.Range(1, len(chain)-2)])})
+		}
+		holder.Fields = append(holder.Fields, Field{Name: g.nm.fresh(false), Index: 7, Type: Type{Prim: "uint32"}})
+	}
+	// imported levels first (they belong to the library file anyway), the rest in a drawn
+	// order: bottom-up, top-down, or holder in the middle
+	var own []*Def
+	for _, d := range chain {
+		if d.Imported {
+			g.s.Defs = append(g.s.Defs, d)
+		} else {
+			own = append(own, d)
+		}
+	}
+	own = append(own, holder)
+	switch r.Intn(3) {
+	case 1:
+		for i, j := 0, len(own)-1; i < j; i, j = i+1, j-1 {
+			own[i], own[j] = own[j], own[i]
+		}
+	case 2:
+		pm := r.Perm(len(own))
+		sh := make([]*Def, len(own))
+		for i, k := range pm {
+			sh[i] = own[k]
+		}
+		own = sh
+	}
+	g.s.Defs = append(g.s.Defs, own...)
+	for _, d := range chain {
+		g.structs = append(g.structs, d.Name)
+	}
 }
 
 var constLiterals = [][2]string{{"int32", "-5"}, {"uint8", "0xff"}, {"int64", "-9223372036854775808"}, {"uint64", "18446744073709551615"},
@@ -361,6 +459,10 @@ func GenerateWithLib(r *prng.Rand, name string) *Schema {
 		g.def(i == nd-1)
 	}
 	g.s.Combined = r.Bool()
+	if ro := r.Fork("order"); ro.Chance(1, 4) {
+		// a wrapper chain whose lower levels live in the library file
+		g.wrappers(ro, ro.Range(1, 3))
+	}
 	var front, back []*Def
 	for _, d := range g.s.Defs {
 		if d.Kind == KEnum && d.Flags {
